@@ -23,7 +23,38 @@ WEIGHTS = {"p_create": 0.5, "p_edit": 0.2, "p_ro": 0.03, "nested": 0.55, "sf": 0
            "ii": 0.1, "creator": 0.5}
 
 
+def generate_chain_rename(rng):
+    """a chain of nested histories (root > A > A/B [> A/B/C]) whose innermost / middle folder is renamed before a
+    create -dr on the outer root: previous paths of the renamed history root at every nesting depth"""
+    from .. import gen
+
+    env = gen.gen_env(rng)
+    tree = gen.gen_tree(rng, max_entries=5, max_depth=2, hostile=0.1)
+    depth = rng.choice([2, 3, 3])
+    chain = ["A", "A/B", "A/B/C"][:depth]
+    for d in chain:
+        tree.setdefault(d, {"t": "d"})
+        tree.setdefault(d + "/f_%d.bin" % len(d), {"t": "f", "c": gen.unique_content(rng)})
+    if rng.random() < 0.3:
+        tree.setdefault("A/AA", {"t": "d"})
+        tree.setdefault("A/AA/x.txt", {"t": "f", "c": gen.unique_content(rng)})
+    env["tree"] = tree
+    fm = gen.fmt_args(gen.pick_formats(rng, 1, 2))
+    ops = []
+    for d in reversed(chain):
+        if rng.random() < 0.85:
+            ops.append(scen.cmd("create", "@R/" + d, *fm))
+    ops += [scen.cmd("create", "@R", *fm), {"op": "advance", "us": 1_000_000}]
+    d = rng.choice(chain)
+    ops.append({"op": "rename", "src": d, "dst": d + "2", "fault": "rename_history_root"})
+    ops.append(scen.cmd("create", "@R", "-dr", *fm, *(["-n"] if rng.random() < 0.15 else [])))
+    ops.append(scen.cmd("create", "@R", *fm))
+    return {"world": env, "ops": ops}
+
+
 def generate(rng, tier):
+    if rng.random() < 0.05:
+        return generate_chain_rename(rng)
     sc = explore.generate(rng, tier, WEIGHTS, hostile=0.25)
     if rng.random() < 0.15:
         # a folder (or file) renamed between two generations sealed with the same format and -dr: previous paths of
